@@ -49,10 +49,10 @@ def main(argv):
             if p.returncode != 0:
                 rows.append((sid, prop, "PATCH-FAILED", p.stdout[-200:] + p.stderr[-200:]))
                 continue
-            env = dict(os.environ, PYTHONPATH=scratch, PYTHONHASHSEED="0")
+            env = dict(os.environ, PYTHONPATH=scratch, PYBROPS_ROOT=scratch, PYTHONHASHSEED="0")
             demo = os.path.join(d, "demo.py")
             dm = sh(["/venv/bin/python", demo], env=env, cwd=scratch, timeout=900)
-            dc = sh(["/venv/bin/python", demo], env=dict(os.environ, PYTHONPATH="/repo", PYTHONHASHSEED="0"), cwd="/repo", timeout=900)
+            dc = sh(["/venv/bin/python", demo], env=dict(os.environ, PYTHONPATH="/repo", PYBROPS_ROOT="/repo", PYTHONHASHSEED="0"), cwd="/repo", timeout=900)
             demo_ok = dm.returncode != 0 and dc.returncode == 0
             cmd = [os.path.join(VERIF, "check"), prop, "--no-evidence"]
             if runs:
